@@ -533,8 +533,8 @@ def _(f, a):
     return (str(f), repr(f), f.to_html()[:0], f.to_csv is not None)
 
 
-def frame_op_strategy():
-    names = [o[0] for o in FRAME_OPS]
+def frame_op_strategy(only=None):
+    names = [o[0] for o in FRAME_OPS if only is None or o[0] in only]
     table = {o[0]: o for o in FRAME_OPS}
 
     @st.composite
@@ -791,7 +791,7 @@ def _(ix, a):
 def _(ix, a):
     if ix.depth == 1:
         return (ix.level_add('L'), ix.to_series(), ix.isin(list(ix)[:1]))
-    return (ix.level_add('L'), ix.level_drop(1), ix.flat(), ix.to_frame(), ix.label_widths_at_depth(0))
+    return (ix.level_add('L'), ix.level_drop(1), ix.level_drop(-1), ix.flat(), ix.to_frame(), ix.label_widths_at_depth(0))
 
 
 @iop('astype_fillna', A(dt=st.sampled_from(['object', 'float64', '<U8'])))
